@@ -338,7 +338,7 @@ Section TieProofs.
   (** *** the two instantiations of the pipeline coincide *)
   Variable D : Type.
   Variable modify : kind -> D -> C -> C.
-  Variable react : list (kind * C) -> kind -> C.
+  Variable react : Z -> Z -> list (kind * C) -> kind -> C.
   Variable M : Type.
   Variable mix_nums : M -> list Z.
   Variable mixf : kind -> M -> list (Z * option C) -> C.
